@@ -145,7 +145,8 @@ def targeted_mutants(doc_small, doc_shipped):
         m("balancer graph: " + gname, doc_small, fn, "balancer-graph")
     # rules
     bad_rules = {
-        "syntax error": "request.listener == ", "type error": "request.target.port + 1", "wrong arity": "to_string() == \"a\"", "tuple index": "(1,2).5 == 1",
+        "syntax error": "request.listener == ", "type error": "request.target.port + 1", "wrong arity": "to_string() == \"a\"", "tuple index": "(1,2).5 == 1", "tuple index = size": "(1,2).2 == 1", "tuple index = size (3)": "(1,\"a\",true).3 == 1", "tuple index size+1": "(1,2).3 == 1",
+        "tuple index negative": "(1,2).-1 == 1", "tuple index last (valid)": "(1,2).1 == 2", "index = array size": "[1,2][2] == 1",
         "mixed comparison": "1 == \"a\"", "unknown function": "nosuch(1)", "unknown field": "request.nosuch == 1", "division by zero": "1 / 0 == 1",
         "index out of range": "split(request.target.host, \".\")[9] == \"x\"", "invalid regex": "request.target.host =~ \"(\"", "array compare": "[1] == [1]",
     }
